@@ -23,7 +23,7 @@ RULE = ('scenarios that between them yield every event kind (Connecting, Connect
 ASSUMPTIONS = ['CPython reference counting finalises an unreferenced generator immediately (gc.collect() is also called)']
 
 F = refws.enc_frame
-MECHS = ('break', 'raise', 'genclose', 'with', 'with-long-message', 'rebind')
+MECHS = ('break', 'raise', 'genclose', 'with', 'with-long-message', 'rebind', 'rebind-then-finish')
 
 
 class Boom(Exception):
@@ -78,7 +78,12 @@ def make(name):
             if st[0] == 'raw':
                 off += len(st[1])
                 cuts.append(off)
-    w = H.World(lambda _i: simnet.ScriptServer(full), cuts=cuts, horizon=sc.get('horizon', 0.0),
+    # a second connection on the same object (mechanism rebind-then-finish) is closed by the application at its first
+    # Poll and the server answers: it is over - Closed, closed flag and all - before the first generator is finalised
+    second = [('hs', {}), ('await_close',), ('echo_close',)]
+    if sc.get('proxy'):
+        second = [('proxy', b'HTTP/1.1 200 Connection established\r\n\r\n')] + second
+    w = H.World(lambda i_: simnet.ScriptServer(full if i_ == 0 else second), cuts=cuts, horizon=sc.get('horizon', 0.0),
                 gai_error=bool(sc.get('gai')), budget=20000,
                 faults={(f[0], f[1]): f[2] for f in sc.get('faults', ())})
     url = sc.get('url', 'ws://example.com/')
@@ -200,6 +205,35 @@ def abandon(genf, ws, k, mech, policy=None, world=None):
         else:
             gen_ = ws.connect()
         del gen_
+    elif mech == 'rebind-then-finish':
+        # the abandoned generator stays referenced while the SAME WebSocket object is connected again and that second
+        # connection runs to its end; only then is the old generator released
+        old = genf()
+        for ev in old:
+            handler(ev)
+            if len(seen) - 1 == k:
+                break
+        new = ws.connect(session_class=simnet.SimSession) if world is not None else ws.connect()
+        n = 0
+        try:
+            for ev in new:
+                n += 1
+                if ev.name == 'poll' and n < 50:
+                    try:
+                        ws.close(1000, 'second connection done')
+                    except Exception:   # noqa
+                        pass
+                    n = 50
+                if n > 200:
+                    break
+        except (simnet.Quiesced, simnet.BudgetExceeded):
+            pass
+        try:
+            new.close()
+        except Exception:   # noqa
+            pass
+        del new
+        del old
     gc.collect()
     return seen
 
@@ -305,7 +339,7 @@ def run_case(case, acc):
     for s in w.socks:
         acc.count2('oracle', 'sockets_checked')
         if not s.closed:
-            key = 'socket-left-open-after-abandon:at-%s' % how[k] + (':' + mech if mech in ('rebind', 'with-long-message') else '')
+            key = 'socket-left-open-after-abandon:at-%s' % how[k] + (':' + mech if mech in ('rebind', 'with-long-message', 'rebind-then-finish') else '')
     for sel in w.selectors:
         acc.count2('oracle', 'selectors_checked')
         if not sel.closed and key is None:
